@@ -13,6 +13,14 @@ TEXT = {
  "C04": ("Both modes (Emit/Check) of every case are explored by TLC against the mode-free reference; in the crate, check(input) and parse(input) are run side by side on every replayed and recorded case and must agree on acceptance and on the full error list.", "3,4,7"),
  "C05": ("Emitting family (validate emitters under choices, repetitions, lookahead, and_is, rewind, folds): TLC checks that the secondary error list after every successful sub-parse equals the reference's emissions along the surviving path; error lists of successful parses are compared between machine and crate for every behaviour.", "3,4,5,7"),
  "C06": ("Error family under Rich/Simple/Cheap/EmptyErr: TLC checks FurthestFailure (position = furthest failure of the reference, merged expectations, custom errors preserved, span/found coherent); the last error of every rejected behaviour is compared with the crate, and Cheap/Simple/Rich spans are compared on the crate.", "3,4,5,7"),
+ "C07": ("Span family: every node of the C01/C02 grammar class may be wrapped in to_span / to_slice / map_with / validate / try_map / foldl_with / foldr_with captures; the machine computes spans exactly as each Input implementation does (byte offsets for &str, indices for slices, token-carried gapped spans for Input::map over slices and streams) and TLC checks them against the reference span function (first consumed token start .. last consumed token end, empty span before the following token for empty matches) plus SpansWellFormed; all behaviours are replayed in the crate, where to_slice additionally asserts pointer identity with the caller's buffer.", "3,4,7"),
+ "C08": ("Recovery family: recover_with(via_parser | skip_until | skip_then_retry_until) at arbitrary positions and nested inside each other; TLC checks the machine (one action per step of recovery.rs) against the declarative strategy rules of the reference (transparent on success, exactly one extra error on recovery, consumes nothing when both fail, least-k skip, error-free retry); outputs and complete error lists of every behaviour are compared with the crate.", "3,4,7"),
+ "C09": ("Pratt family: operator tables (prefix/postfix/infix-left/infix-right, equal powers, same symbol twice / as prefix and infix) x all token strings up to the bound; TLC checks the machine's transcription of pratt_go against the textbook binding-power algorithm of the reference and the PrattFlatten invariant; tuple and Vec tables are replayed in the crate and must agree with the machine's tree, spans and errors.", "3,4,7"),
+ "C10": ("The same cases are run through every Input implementation (&str, &[T], &[T;N], Stream, boxed Stream, Input::map over slice and stream, with_context, map_span, IoInput, &[u8]); the machine models each kind's span construction; the crate's results per kind are compared with the machine and, kind against plain slice, with each other after the documented span re-basing; a counting iterator under Stream asserts single in-order pulls.", "3,4,7"),
+ "C11": ("Memo family: memoized() at every subset of nodes of bounded grammars, shared memoized values used several times (let/var), left-recursive templates cut by memoization; TLC checks the machine's memo table protocol (key, in-progress marker, stored error) against the memo-erased reference and the step bound for left recursion; in the crate the memoized grammar is also compared against its memo-free erasure.", "3,4,5,7"),
+ "C12": ("Recursive templates (right recursion, nested delimiters, mutual recursion, token trees, two self references) with environments; TLC checks the machine against the reference, whose rec/ref denotation is the unrolling; in the crate every recursive grammar is also compared against its k-fold syntactic unrolling.", "3,4,7"),
+ "C15": ("Context family: with_ctx / map_ctx / then_with_ctx / ignore_with_ctx providers at arbitrary nodes, configurable just (owned and by reference) and repeated().configure(exactly/at_least/at_most); TLC checks that every context read equals the reference's environment-passing value and that configured parsers match like statically configured ones; outputs embedding the observed contexts are compared with the crate.", "3,4,7"),
+ "C17": ("Label family: labelled / as_context / map_err(id|retag) at every subset of nodes plus templates with a pending error left behind by a successful decorated parser; TLC checks the machine (label.rs, MapErrWithState) against the erasure reference; in the crate the decorated grammar is compared with its undecorated erasure on acceptance, outputs, error count and spans, and the full Rich errors are compared with the machine.", "3,4,7"),
  "C18": ("TLC checks InspConsistent (inspector = tokens before the cursor) in every reachable state of the machine; the crate runs with a snapshotting inspector (count + rolling hash) observed at map_with/probes and after the parse, compared with the machine and with the hash of the input prefix.", "3,4,7"),
  "C20": ("TLC checks NoPanic and the step bound on every behaviour for all four error types (incl. the zero-sized one); every case runs in the crate under catch_unwind and must return a ParseResult.", "3,4,7"),
 }
